@@ -131,6 +131,7 @@ def resolve_all(
     x: object,
     default: object = None,
     _path: FrozenSet[int] = frozenset(),
+    _done: Optional[Dict[int, Any]] = None,
 ) -> Any:
     """Recursively resolves the given object and all the internals.
 
@@ -141,19 +142,32 @@ def resolve_all(
     (a reference cycle) is replaced by `default` instead of being followed
     forever.
     """
+    if _done is None:
+        # objects resolved during this call: an object that is referenced many
+        # times (arrays of references to arrays of references ...) is resolved
+        # once, not once per path that leads to it
+        _done = {}
+    first_objid = x.objid if isinstance(x, PDFObjRef) else None
+    if first_objid is not None and first_objid in _done:
+        return _done[first_objid]
     while isinstance(x, PDFObjRef):
         if x.objid in _path:
             return default
         _path = _path | {x.objid}
         x = x.resolve(default=default)
     if isinstance(x, list):
-        x = [resolve_all(v, default=default, _path=_path) for v in x]
+        x = [resolve_all(v, default=default, _path=_path, _done=_done) for v in x]
     elif isinstance(x, dict):
         # A new dictionary is built: writing the resolved values back into the
         # (cached) parsed object would link parsed objects directly to each
         # other, and repeated calls from different starting points could close
         # a cycle that no reference guard can see any more.
-        x = {k: resolve_all(v, default=default, _path=_path) for k, v in x.items()}
+        x = {
+            k: resolve_all(v, default=default, _path=_path, _done=_done)
+            for k, v in x.items()
+        }
+    if first_objid is not None:
+        _done[first_objid] = x
     return x
 
 
